@@ -21,7 +21,7 @@ class NamesDriver:
     def prepare(self):
         import alpha
         self.m = alpha.measured
-        self.pexp = {"p7": 7, "p8": 8}
+        self.pexp = {"p7": 7, "p8": 8, "p0": 0}
 
     def fresh_ctx(self):
         return {"obj": {}}
